@@ -139,6 +139,22 @@ func (fr *FileReader) readNextBlock() (*Block, error) {
 	if err := blockHeader.Deserialize(headerBuf); err != nil {
 		return nil, err
 	}
+	// CompressedSize comes from the file and is not covered by any checksum: never
+	// allocate it before checking it against what is actually left of the file
+	// (a damaged or forged header could otherwise request up to 4 GiB).
+	// The outcomes are the ones io.ReadFull would have produced: io.EOF when
+	// nothing follows the header, io.ErrUnexpectedEOF when the data is cut short.
+	info, err := fr.file.Stat()
+	if err != nil {
+		return nil, err
+	}
+	remaining := info.Size() - (offset + BlockHeaderSize)
+	if int64(blockHeader.CompressedSize) > remaining {
+		if remaining <= 0 {
+			return nil, io.EOF
+		}
+		return nil, io.ErrUnexpectedEOF
+	}
 	// Read compressed data
 	compressedData := make([]byte, blockHeader.CompressedSize)
 	if _, err := io.ReadFull(fr.file, compressedData); err != nil {
